@@ -526,7 +526,7 @@ func genBufs(t *rapid.T) Bufs {
 	for i, n := 0, rapid.IntRange(2, 8).Draw(t, "nops"); i < n; i++ {
 		op := BufOp{Kind: "enc", Prefix: p, Version: v, Network: nw, Buf: rapid.IntRange(0, 2).Draw(t, "buf"),
 			Fill: rapid.SliceOfN(rapid.Byte(), 1, 8).Draw(t, "fill")}
-		if pattern == "mixed" && i > 0 && rapid.IntRange(0, 2).Draw(t, "redec") == 0 {
+		if pattern == "mixed" && i > 0 && rapid.IntRange(0, 5).Draw(t, "redec") == 0 {
 			op = BufOp{Kind: "redec", Buf: rapid.IntRange(0, 7).Draw(t, "src"), Fill: op.Fill}
 		}
 		switch rapid.IntRange(0, 5).Draw(t, "header") { // mostly the same script under the same or another header
@@ -546,7 +546,7 @@ func genBufs(t *rapid.T) Bufs {
 
 func TestBuffers(t *testing.T) {
 	pbt.Run(t, pbt.Sub[Bufs]{
-		Name: "buffers", Quick: 36000, Thorough: 600000,
+		Name: "buffers", Quick: 24000, Thorough: 400000,
 		Gen:   genBufs,
 		Check: checkBufs,
 	})
